@@ -29,6 +29,15 @@ def run(ctx):
         "written; (S5) the serializer walks the same args_definition the recorder used, emits every slot present, "
         "every child of a control, and separators only between consecutive tests.")
     ctx.not_decided = "tree equality after re-parsing and idempotence of the output for all values (behavioural)."
+    serializer_rules(ctx, R)
+    # recorder side of S1: what can end up in a string list / argument slot (shared with C01/C03)
+    from . import c01
+    c01.p14(ctx, R)
+    c01.p15(ctx, R)
+    c01.g4(ctx, R)
+
+
+def serializer_rules(ctx, R):
     f = R.tosieve
     cfg = ctx.cfg(f)
     target = next((p for p in f.params if p == "target"), None)
